@@ -992,7 +992,7 @@ def _c03_documents(tier, seed):
         k = 0
         for lab, text in docgen.systematic():
             k += 1
-            if k % 3 == seed % 3:
+            if k % 4 == seed % 4:
                 docs.append((lab, text, [pairs[(k * 7) % len(pairs)]]))
         for lab, text in docgen.special_documents():
             docs.append((lab, text, pairs))
@@ -1031,7 +1031,7 @@ def c03_run(mod, tier, seed):
     t0 = time.time()
     with _NoNumpy():
         docs = _c03_documents(tier, seed)
-        col = Collector(_c03_checker(mod), c03_classify, _c03_features, 3 if tier == "quick" else 8)
+        col = Collector(_c03_checker(mod), c03_classify, _c03_features, 3 if tier == "quick" else 4)
         combos = set()
         evaluations = 0
         unsupported = 0
@@ -1065,7 +1065,7 @@ def c03_run(mod, tier, seed):
                  ("systematic kinds x %d nesting patterns x 4 transforms x placement + %d special documents + 300 "
                   "seeded random documents x 2 configuration pairs" % (len(docgen.PATTERNS), nspecial)
                   if tier == "quick" else
-                  "every third member of the systematic product (kinds x variants x patterns x 7 transforms x placement "
+                  "every fourth member of the systematic product (kinds x variants x patterns x 7 transforms x placement "
                   "x 5 roots), %d special documents x 36 configurations, exhaustive one-leaf documents with <= 2 containers "
                   "from {g, svg+viewBox, svg, use, use of group} x 3 transforms (none, reflection, general matrix) x 36 "
                   "configurations, 5000 seeded random documents x 2 configuration pairs" % nspecial),
